@@ -240,9 +240,11 @@ def parseOp (toks : List String) : Option Op :=
     pure (.newUniverse attrs ms L)
   | ["lawset"] => some (.newLaws 0)
   | ["lawset", r] => do pure (.newLaws (← r.toNat?))
-  | ["edge", cls, a, b] => do
+  | "edge" :: cls :: a :: b :: opts => do
     let c ← LCls.ofString? cls
-    if a == "!" || b == "!" then pure .newEdgeIllTyped else
+    -- `bad=k`: the constructor is given `attributes=` that it rejects (raises before anything is touched);
+    -- `x=uid`, `la=k` (a caller-supplied uid, user attributes on the link) do not concern the model
+    if a == "!" || b == "!" || optArg opts "bad" != "" then pure .newEdgeIllTyped else
     let x ← parseOptV a
     let y ← parseOptV b
     pure (.newEdge c x y)
